@@ -95,6 +95,8 @@ pub enum Ev
     InstEntity { inst: u8, e: u64 },
     /// A wrapper op was skipped or filtered (world-reactor dedupe); payload: number of triggers kept.
     Kept { uid: u32, n: u8 },
+    /// A `single*` accessor ran: the entity it reported and the value it saw before writing.
+    Single { uid: u32, e: u64, old: Option<u8> },
     /// syscall family: callee body, and value returned to the caller.
     SysBody { key: u8, n: u32, input: u32 },
     SysBodyEnd { key: u8, n: u32 },
